@@ -166,7 +166,7 @@ def decide(pid, tier, seed, plan, results, quals, wall):
     vio_lines = []
     for o in violations:
         rpath = write_replay(pid, o, bounded)
-        tail = '' if o.get('replayed') else ' no-failing-input-found'
+        tail = (' input=%s observed=%s' % (json.dumps({'args': o['concrete']['args'], 'fields': o['concrete']['fields']})[:160], json.dumps(o.get('observed'))[:120])) if o.get('replayed') else ' no-failing-input-found'
         vio_lines.append('VIOLATION property=%s replay=%s obligation=%s verdict=%s%s' % (pid, rpath, o['name'], o['verdict'], tail))
     for b, f in bfail:
         rpath = write_replay(pid, {'name': 'bounded/%s/%s' % (b['unit'].split(':', 1)[1], f.get('check', '')), 'verdict': 'refuted',
@@ -250,6 +250,7 @@ def write_replay(pid, o, bounded):
     rec = {'property': pid, 'obligation': o['name'], 'verdict': o['verdict'], 'detail': o.get('detail'),
            'solver_model': o.get('model'), 'solver_note': o.get('note'), 'backend': o.get('backend'),
            'witness': o.get('witness'), 'replayed_on_real_code': bool(o.get('replayed')), 'unit': o.get('unit'),
+           'concrete': o.get('concrete'), 'observed_on_real_code': o.get('observed'),
            'how_to_replay': o.get('replay_cmd', './check %s --replay %s' % (pid, os.path.relpath(path, VERIF)))}
     with open(path, 'w') as f:
         json.dump(rec, f, indent=1, default=str)
